@@ -515,6 +515,24 @@ func (g *gen) grid(engines []string) {
 			g.emit("Q")
 		}
 	}
+	// local deletion: a refused conditional write (SET .. EX s NX on an existing key, SET .. EX s XX on a missing one,
+	// SETNX on an existing key, SETIFEQ .. EX with another value) must not leave an expiry behind: the writes after
+	// it, a deleter scan and the reads
+	for ri, refused := range [][]string{{"set", "t:a", "x", "ex", "10", "nx"}, {"set", "t:b", "x", "ex", "10", "xx"},
+		{"setifeq", "t:a", "zz", "x", "ex", "10"}, {"set", "t:a", "x", "nx", "ex", "5"}} {
+		g.seq, g.step = 1000000+n, 0
+		n++
+		g.emit("NEW", "local", []string{"pebble", "mem"}[ri%2])
+		g.policy = "local"
+		w(base, "set", "t:a", "v")
+		w(base+1, refused[0], refused[1:]...)
+		w(base+2, "set", "t:b", "y")
+		w(base+3, "hset", "t:a", "f", "v")
+		g.observeAll()
+		g.emit("L")
+		g.emit("X")
+		g.observeAll()
+	}
 	// compaction-filter probes on both sides of the lazy threshold
 	for _, eng := range engines {
 		g.seq, g.step = 1000000+n, 0
